@@ -213,12 +213,36 @@ def behav_classes():
 
         def propagate(self):
             self.r.put(self.a.get() + 1)
-    return Acc, Inc
+    class Toggler(py4hw.Logic):
+        """bool-initialised state that clock() keeps assigning bools to"""
+
+        def __init__(self, parent, name, en, q):
+            super().__init__(parent, name)
+            self.en = self.addIn('en', en)
+            self.q = self.addOut('q', q)
+            self.phase = False
+            self.armed = True
+            self.count = 0
+
+        def clock(self):
+            if (self.en.get() == 1):
+                if (self.phase):
+                    self.q.prepare(self.count)
+                    self.phase = False
+                else:
+                    self.count = self.count + 3
+                    self.phase = True
+            else:
+                if (self.armed):
+                    self.armed = False
+                else:
+                    self.armed = True
+    return Acc, Inc, Toggler
 
 
 def behav(rng):
     import py4hw
-    Acc, Inc = behav_classes()
+    Acc, Inc, Toggler = behav_classes()
     hw = py4hw.HWSystem()
     W = rng.choice([4, 8])
     a, m, r = hw.wire('a', W), hw.wire('m', W), hw.wire('r', W)
@@ -232,7 +256,11 @@ def behav(rng):
         r2 = hw.wire('r2', W)
         top.addOut('r2', r2)
         tops.append(Acc(top, 'acc2', a, r2))
-    return dict(hw=hw, tops=tops, inputs={'a': a}, desc=dict(behav_W=W))
+    en, tq = hw.wire('en'), hw.wire('tq', W)
+    top.addIn('en', en)
+    top.addOut('tq', tq)
+    tops.append(Toggler(top, 'tog', en, tq))
+    return dict(hw=hw, tops=tops, inputs={'a': a, 'en': en}, desc=dict(behav_W=W))
 
 
 def msg(rng):
